@@ -18,6 +18,27 @@ CHECKS = {
         "trusts: the expected text is plain concatenation of generated lines; Hypothesis; "
         "empty unterminated line is outside the domain (documented caller error)",
         "DESIGN.md 4/C01"),
+    "C05": (
+        "Hypothesis op-list histories (set/add/del) over structure-generated documents + bounded "
+        "enumeration of small documents; oracle: reference document model compared byte-for-byte "
+        "after every operation, fresh parse at the end",
+        "generated-input search against a reference list model of the document: thousands of "
+        "(document, history) cases, dump compared with the model's bytes after every step, values "
+        "re-read through a fresh parse; a search, not a proof",
+        "trusts the document model (vcheck/model/docmodel.py, list surgery over generated "
+        "structure, no parser); layout inside a written field is the library's choice",
+        "DESIGN.md 4/C05"),
+    "C10": (
+        "Hypothesis op-list histories of structural operations over documents with duplicated "
+        "fields + bounded enumeration of every single ordering op/key on small paragraphs; oracle: "
+        "reference list model (dump bytes, keys, every (name,i) lookup) after every operation, "
+        "fresh parse after paragraph operations",
+        "generated-input search against a reference list model with the docstring semantics of "
+        "order_*/sort/set/delete/insert/append; byte equality after every step; a search, not a proof",
+        "trusts the document model; number of newlines around an inserted paragraph and the side of "
+        "free comments are left to the library, separation is judged by a fresh parse; emptied "
+        "paragraphs are outside the domain",
+        "DESIGN.md 4/C10"),
 }
 
 NOT_YET = "check not built yet in this round (planned; see DESIGN.md section 4)"
